@@ -2,11 +2,12 @@
 # prints the prompt given to a mutation sub-agent for one property (only the property text + its worktree)
 import json,sys
 pid=sys.argv[1]
+round2 = len(sys.argv)>2 and sys.argv[2]=='round2'
 for l in open('/verif/properties.jsonl'):
     p=json.loads(l)
     if p['id']==pid: break
 wt=f"/tmp/wt/{pid}"
-print(f"""You are working on the Go project tmpim/casket (a maintained fork of the Caddy v1 web server). You have your own scratch git worktree of it at {wt} . Work ONLY inside {wt} and /tmp/seed/ . Do not read or write /repo or /verif.
+text=(f"""You are working on the Go project tmpim/casket (a maintained fork of the Caddy v1 web server). You have your own scratch git worktree of it at {wt} . Work ONLY inside {wt} and /tmp/seed/ . Do not read or write /repo or /verif.
 
 Environment: no network. Before every go command run: export GOFLAGS=-mod=mod GOPROXY=off GOSUMDB=off GOTOOLCHAIN=local . Always pass -vet=off -count=1 to go test, and a -timeout.
 
@@ -17,7 +18,7 @@ Here is a semantic property of casket that is supposed to hold:
   Quantified over: {p['quantifier']['text']}
   Main source files involved: {', '.join(p['anchors']['files'])}
 
-Your task: produce TWO different, independent source changes (call them A and B, in different functions if possible) to casket's non-test Go code, each of which BREAKS this property while
+{{ROUND2}}Your task: produce TWO different, independent source changes (call them {{LA}} and {{LB}}, in different functions if possible) to casket's non-test Go code, each of which BREAKS this property while
   (1) still compiling (go build ./... and go vet are not required to be clean, but go build must succeed),
   (2) passing the existing test suite unchanged: at minimum `go test -vet=off -count=1 -timeout 10m ./...` for every package you touched and every package that imports it (running the whole suite `cd {wt} && go test -vet=off -count=1 -timeout 25m ./...` is best, ~1-2 minutes),
   (3) being realistic: the kind of defect a maintainer could plausibly introduce during a refactor, optimisation or 'simplification' -- NOT an obviously malicious edit, and NOT something ordinary use would expose at once. It should need something specific to manifest: an unusual or boundary input, a particular multi-step sequence of operations, a fault/crash/panic at a particular point, a rare state (e.g. counter near wrap-around), or two cooperating sites that each look fine alone.
@@ -27,8 +28,13 @@ For each change also write a demonstration: a NEW Go test file (in the appropria
 
 Verify all of this yourself by actually running the commands (with the change: build ok, existing tests of affected packages pass, demo fails; without the change (git stash or git checkout of the source file): demo passes).
 
-Deliverables, for X in A, B -- directory /tmp/seed/{pid}X/ containing:
+Deliverables, for X in {{LA}}, {{LB}} -- directory /tmp/seed/{pid}X/ containing:
   - patch.diff : output of `git -C {wt} diff` for the SOURCE change only (not including the demo test file), applicable with `git apply` at the repository root of an unmodified checkout
   - the demo test file, plus a file DEMO_PATH.txt with its path relative to the repository root (e.g. caskethttp/proxy/zz_seed_demo_test.go) and the `go test -run` command that runs it
   - meta.json : {{"property": "{pid}", "summary": "...what the change does and how it breaks the property...", "needs_to_manifest": "...", "files_changed": [...], "commands_run": [...], "demo_fails_with_change": true, "demo_passes_without_change": true, "existing_tests_pass_with_change": true}}
 When finished with both, leave the worktree clean (git -C {wt} checkout -- . ; remove your demo test files from it) and reply with a short summary of the two changes. If you cannot find a second change, deliver one.""")
+if round2:
+    text=text.replace('{ROUND2}','This is a second round: an earlier engineer already tried the most obvious places (the central function of each mechanism). Look for LESS obvious places: helper functions, constructors and setup code that establish what the central functions rely on, error and panic paths, interactions between two directives or two files, state that survives across requests or reloads. ').replace('{LA}','C').replace('{LB}','D')
+else:
+    text=text.replace('{ROUND2}','').replace('{LA}','A').replace('{LB}','B')
+print(text)
